@@ -2,6 +2,7 @@ package rules
 
 import (
 	"fmt"
+	"go/token"
 	"go/types"
 	"sort"
 	"strings"
@@ -237,6 +238,16 @@ func storeDerivesFromLoad(in ssa.Instruction) ssa.Instruction {
 			}
 			return walk(x.Y)
 		case *ssa.UnOp:
+			if al, ok := x.X.(*ssa.Alloc); ok && x.Op == token.MUL && al.Referrers() != nil {
+				for _, r := range *al.Referrers() {
+					if st, ok := r.(*ssa.Store); ok && st.Addr == al {
+						if res := walk(st.Val); res != nil {
+							return res
+						}
+					}
+				}
+				return nil
+			}
 			return walk(x.X)
 		case *ssa.Convert:
 			return walk(x.X)
